@@ -84,8 +84,24 @@ def opMul : Handler := fun args impl =>
     (model, v)
   | _ => bad
 
+/-- process level: `cli.disc f` prints the discriminant of the normalised list -/
+def opCliDisc : Handler := fun args impl =>
+  match args.mapM parseInts? with
+  | some [f0] =>
+    let f := NTV.PolyG.fromRaw f0
+    let d := discriminantE f
+    let model := render toString d
+    let v :=
+      if !(exact d) then "fail:inexact-division-in-model"
+      else if !inDomain f then "skip:outside-domain"
+      else match impl.toInt? with
+        | some di => verdict (some di == S.discSpec f) "discriminant-value"
+        | none => "fail:unexpected-" ++ impl
+    (model, v)
+  | _ => bad
+
 def ops : List (String × Handler) :=
-  [("disc", opDisc), ("disc.raw", opDisc), ("disc.shift", opShift), ("disc.neg", opNeg),
+  [("cli.disc", opCliDisc), ("disc", opDisc), ("disc.raw", opDisc), ("disc.shift", opShift), ("disc.neg", opNeg),
    ("disc.mul", opMul)]
 
 end NTV.Driver.C05
